@@ -362,6 +362,11 @@ func c14Draw(rt *rapid.T) c14Input {
 
 func TestC14(t *testing.T) {
 	rec := ev.New("C14", c14Rule)
+	defer func() {
+		if !rec.Flush() {
+			t.Fail()
+		}
+	}()
 	rec.Assume("the documented order is: name for plain models; unattributed items first, then module, file, name for modular models (a model is modular when some type has a module)",
 		"module names are DSL identifiers, file names contain no line break")
 	rec.Require("model:modular", 0.3)
@@ -408,9 +413,6 @@ func TestC14(t *testing.T) {
 			rt.Fatalf("%s\n%s", msg, m.String())
 		}
 	})
-	if !rec.Flush() {
-		t.Fail()
-	}
 }
 
 func TestReplayC14(t *testing.T) {
